@@ -8,6 +8,7 @@ import (
 	"crypto/sha256"
 	"encoding/hex"
 	"fmt"
+	"github.com/shutter-network/rolling-shutter/rolling-shutter/shmsg"
 	"os"
 
 	"github.com/shutter-network/rolling-shutter/rolling-shutter/app"
@@ -112,7 +113,7 @@ func runWalk(env *vlib.Env, h int, rep *vlib.Reporter, nrep int, primary bool) {
 	}
 	if nrep >= 2 {
 		// replicas differ in everything that is outside the block sequence: replica 1 persists its
-		// state at every commit (wall-clock driven in production), the others never do
+		// state at every commit (wall-clock driven in production), the others never do; replicas 2 and 3 differ from 0 and 1 in their mempool traffic
 		app.PersistMinDuration = 0
 		dir, err := os.MkdirTemp(env.Scratch, "c09p")
 		if err == nil {
@@ -122,13 +123,20 @@ func runWalk(env *vlib.Env, h int, rep *vlib.Reporter, nrep int, primary bool) {
 		}
 	}
 	hash := sha256.New()
+	mempoolNonce := uint64(0)
 	okTx, events := 0, 0
 	var labels []string
 	for b := 0; b < nblocks; b++ {
 		txs := gen.NextBlock()
+		// mempool traffic is outside the block sequence: replicas 0 and 1 see the block's
+		// transactions in CheckTx (responses compared), replica 2 sees no CheckTx at all, replica 3
+		// sees them in another order plus transactions that never make it into a block
 		for _, tx := range txs {
 			var first []byte
 			for i, rp := range reps {
+				if i >= 2 {
+					break
+				}
 				c := rp.CheckTx(tx)
 				m := smchain.MarshalCheck(c)
 				if i == 0 {
@@ -142,6 +150,18 @@ func runWalk(env *vlib.Env, h int, rep *vlib.Reporter, nrep int, primary bool) {
 			if len(labels) < 12 {
 				labels = append(labels, tx.Label)
 			}
+		}
+		if nrep >= 4 {
+			mr := vlib.NewRng(env.Seed, 909, uint64(h), uint64(b))
+			for _, i := range mr.Perm(len(txs)) {
+				reps[3].CheckTx(txs[i])
+			}
+			mempoolNonce++
+			reps[3].CheckTx(u.SignTx(mr.Intn(len(u.Keys)), 55_000_000+mempoolNonce, smchain.ChainID, shmsg.NewBlockSeen(uint64(mr.Intn(500))), "mempool-only"))
+			mempoolNonce++
+			reps[3].CheckTx(u.SignTx(mr.Intn(len(u.Keys)), 55_000_000+mempoolNonce, "other-chain", shmsg.NewBlockSeen(1), "mempool-only-wrong-chain"))
+			reps[3].CheckTx(smchain.RawTx("mempool-garbage", mr.Bytes(40)))
+			rep.Obs("mempool_only_checktx_calls", 3+int64(len(txs)))
 		}
 		var ref *smchain.BlockResult
 		var refState string
